@@ -28,6 +28,10 @@ CLAIMS = {
     text='partial: Lean 4 theorems over the same session model (readExact_flatten: read_exact returns exactly the next n bytes of the stream however they are split; no_residue for every segmentation); the executable model predicts the session under every segmentation exactly, including the two unsupported classes; per run: every single split point of several requests, random multi-splits, chunks beyond the buffer, compared with the canonical one-read-per-request segmentation on the implementation; the classes head_split and coalesced are recorded known findings',
     note=TB + 'cannot be exhibited: real TCP segmentation and timers; known findings KF-C06-head-split, KF-C06-coalesced (redesign of Request::read needed); the theorem "responses are a function of the byte stream on the supported class" is decided per run, not yet proved in Lean',
     technique='Lean 4 proof (stream lemmas, loop invariant) + model/implementation correspondence + metamorphic oracle over enumerated split points'),
+ 'C07': dict(
+    text='Lean 4 theorems over the extraction model (int_accept_sound: an integer param is accepted only if the whole decoded segment is an optional sign and digits, no minus for unsigned types, denotes the value delivered and lies in the range of the type; int_accept_complete: every in-range integer is accepted in its canonical spelling; handler_runs_iff: the handler runs iff every param converts and every required item is found and decodes; option_none_only_absent); differential run of 24 handler signatures (all 10 integer types, String/&str/Cow, two params, a param under a param mount, Query/JSON/URLEncoded/Text, Option<_>, combinations) against the model and against values computed independently (Python regex/int, json, RFC 3986 pairs) under the exactly matching media type',
+    note=TB + 'the body and query codecs enter the model as data (they are the subject of C08-C10; JSON is serde_json); statuses 500 (param) / 400 (body) are part of the model, the property only asks for an error response',
+    technique='Lean 4 proof (accept-set of the integer parser, all-or-nothing of IntoHandler) + model/implementation correspondence'),
  'C08': dict(
     text='Lean 4 theorems: urlencoded_total (for every input, target type of the serde data model and fuel the URL-encoded reader answers a value or an error: no panic site, no unchecked operation outside its side condition), cookie_take_in_bounds (take_n_unchecked is called with a position inside the input), cookie_value_utf8, multipart_slice_inside (every slice read_until hands out is a prefix of the body), percent_decode_len; differential run of every network-facing decoder on random, grammar-generated and mutated bytes over a family of 30+ target types with catch_unwind / abort / hang detection, UTF-8 re-validation and pointer-range checks, against the models of the URL-encoded, cookie and multipart readers',
     note=TB + 'totality of the cookie, multipart and Set-Cookie readers is by model/implementation correspondence (their models have no panicking outcome) plus the listed side-condition lemmas, not by a separate totality theorem; Rust memory model and aliasing are outside',
